@@ -38,7 +38,7 @@ structure Scan where
   maxTs : Option Int := none          -- largest valid timestamp seen so far
   firsts : List (Int × Int × List Nat) := []   -- delivered intervals so far (start, stop, current ids), in order (all groups)
   firstGrp : List Nat := []                    -- group of each entry of `firsts`
-  expect : Option (Int × Int × Nat) := none    -- a late row inside the allowance of a delivered interval: the next event must be its re-delivery
+  expect : List (Int × Int × Nat) := []        -- a late row inside the allowance of delivered intervals: the next events must be their re-deliveries (start, stop, id), in interval order
   err : Option String := none
   deriving Repr
 
@@ -87,39 +87,46 @@ def checkFirst (c : Cfg) (s : Scan) (start stop : Int) (ids : List Nat) (g : Nat
   { s8 with firsts := s8.firsts ++ [(start, stop, ids)], firstGrp := s8.firstGrp ++ [g] }
 
 /-- a late re-delivery: same interval as an earlier delivery, contents = what was delivered for
-that interval before plus exactly one new row, which is late, lies in the interval, and arrived
-while the interval was still inside the allowance (watermark at its arrival < end + lateness) -/
+that interval before followed by one or more new rows (for overlapping intervals a row that
+updated another interval earlier may follow along), all of them late rows of the interval; the
+last one is the row that caused the re-delivery and arrived while the interval was still inside
+the allowance (watermark at its arrival < end + lateness) -/
 def checkLate (c : Cfg) (s : Scan) (start stop : Int) (ids : List Nat) : Scan :=
   let s1 := if 0 < c.lateness then s else fail s "late-update-without-allowance"
   match s.firsts.find? (fun f => f.1 = start && f.2.1 = stop) with
   | none => fail s1 "late-update-of-unfired-window"
   | some f =>
     let prev := f.2.2
-    let s2 := if ids.take prev.length = prev && ids.length = prev.length + 1 then s1 else fail s1 "late-update-not-previous-plus-one"
+    let s2 := if ids.take prev.length = prev && ids.length > prev.length && ids.eraseDups.length = ids.length
+              then s1 else fail s1 "late-update-not-previous-plus-new"
+    let extra := ids.drop prev.length
+    let s2a := if extra.all (fun i => match lookup s i with
+                | some r => decide (start ≤ r.ts) && decide (r.ts < stop) && !r.onTime
+                | none => false) then s2 else fail s2 "late-update-row-not-a-late-row-of-the-interval"
     let s3 := match ids.getLast? with
       | some i => match lookup s i with
         | some r =>
-          let a := if start ≤ r.ts ∧ r.ts < stop then s2 else fail s2 "late-row-outside-its-interval"
-          let b := if !r.onTime then a else fail a "late-update-by-on-time-row"
           match r.wmAtArrival with
-          | some w => if w < stop + c.lateness then b else fail b "late-update-after-allowance"
-          | none => b
-        | none => fail s2 "late-update-unknown-row"
-      | none => s2
+          | some w => if w < stop + c.lateness then s2a else fail s2a "late-update-after-allowance"
+          | none => s2a
+        | none => s2a
+      | none => s2a
     { s3 with firsts := s3.firsts.map (fun g => if g.1 = start && g.2.1 = stop then (start, stop, ids) else g) }
 
 /-- a late row that falls in an already delivered interval still inside the allowance must be
 re-delivered at once -/
-def expectation (c : Cfg) (s : Scan) (id : Nat) (ts : Int) : Option (Int × Int × Nat) :=
-  if c.lateness ≤ 0 then none else
+def expectation (c : Cfg) (s : Scan) (id : Nat) (ts : Int) : List (Int × Int × Nat) :=
+  if c.lateness ≤ 0 then [] else
   match s.seen.getLast? with
   | some r =>
     if r.id = id ∧ !r.onTime ∧ !r.corrupt then
-      match s.firsts.find? (fun f => decide (f.1 ≤ ts) && decide (ts < f.2.1)), r.wmAtArrival with
-      | some f, some w => if w < f.2.1 + c.lateness then some (f.1, f.2.1, id) else none
-      | _, _ => none
-    else none
-  | none => none
+      match r.wmAtArrival with
+      | some w =>
+        (s.firsts.filter (fun f => decide (f.1 ≤ ts) && decide (ts < f.2.1) && decide (w < f.2.1 + c.lateness))).map
+          (fun f => (f.1, f.2.1, id))
+      | none => []
+    else []
+  | none => []
 
 def stepCore (c : Cfg) (s : Scan) : Ev → Scan
   | .arr _ none _ => s
@@ -131,13 +138,13 @@ def stepCore (c : Cfg) (s : Scan) : Ev → Scan
 
 def step (c : Cfg) (s : Scan) (e : Ev) : Scan :=
   match s.expect with
-  | none => stepCore c s e
-  | some (a, b, id) =>
-    let s0 := { s with expect := none }
+  | [] => stepCore c s e
+  | (a, b, id) :: rest =>
     match e with
-    | .emit true a' b' ids _ => if a' = a ∧ b' = b ∧ ids.contains id then stepCore c s0 e
-                              else stepCore c (fail s0 "late-row-inside-allowance-not-redelivered") e
-    | _ => stepCore c (fail s0 "late-row-inside-allowance-not-redelivered") e
+    | .emit true a' b' ids _ =>
+      if a' = a ∧ b' = b ∧ ids.contains id then stepCore c { s with expect := rest } e
+      else stepCore c (fail { s with expect := [] } "late-row-inside-allowance-not-redelivered") e
+    | _ => stepCore c (fail { s with expect := [] } "late-row-inside-allowance-not-redelivered") e
 
 def scan (c : Cfg) (evs : List Ev) : Scan := evs.foldl (step c) {}
 
@@ -171,8 +178,8 @@ def holds (c : Cfg) (evs : List Ev) (flushed : Bool) : Option String :=
   let s := scan c evs
   match s.err, s.expect with
   | some e, _ => some e
-  | none, some _ => some "late-row-inside-allowance-not-redelivered"
-  | none, none => if flushed then complete c s else none
+  | none, _ :: _ => some "late-row-inside-allowance-not-redelivered"
+  | none, [] => if flushed then complete c s else none
 
 /-- processing-time oracle (tumbling): every delivered result is a size-aligned interval holding
 only rows of that interval, no row is reported twice, and after `ticks` timer ticks every row whose
